@@ -52,6 +52,7 @@ def parse_kv(s):
 def assemble(tpl_path, repo=REPO, drop_lines=()):
     """returns (text, functions_under_contract[], items[], line_map) ; raises ExtractError"""
     out, fns, items = [], [], []
+    options = set()
     lines = open(tpl_path, encoding='utf-8').read().split('\n')
     for d in drop_lines:
         n0 = len(lines)
@@ -62,7 +63,10 @@ def assemble(tpl_path, repo=REPO, drop_lines=()):
     while i < len(lines):
         ln = lines[i]
         st = ln.strip()
-        if st.startswith('//@@ item '):
+        if st.startswith('//@@ option '):
+            options.add(st[len('//@@ option '):].strip())
+            i += 1
+        elif st.startswith('//@@ item '):
             kv = parse_kv(st[len('//@@ item '):])
             subs = []
             for sk in ('sub', 'sub2', 'sub3', 'sub4'):
@@ -142,7 +146,9 @@ def assemble(tpl_path, repo=REPO, drop_lines=()):
             out.append(ln)
             i += 1
     # visibility is irrelevant to the proof: `pub(crate)` -> `pub` so that spec functions may mention every extracted item
-    text = re.sub(r'\bpub\s*\(\s*crate\s*\)', 'pub', '\n'.join(out) + '\n')
+    text = '\n'.join(out) + '\n'
+    if 'keep_visibility' not in options:
+        text = re.sub(r'\bpub\s*\(\s*crate\s*\)', 'pub', text)
     return text, fns, items
 
 
